@@ -34,8 +34,10 @@ TReset ==
 
 TLoad0 == Ev("Load") /\ Load /\ cur' = Line.obj
 \* stamp: 0 = the mutable database existed; n = the new database has the n-th distinct creation time of the history
-\* (observed: GetState reports the uptime of the database against the same clock)
-StampKey(n) == IF n = 0 THEN ndb + 1
+\* (observed: GetState reports the uptime of the database against the same clock).  With UniqueStamp the key of a new
+\* database is its own whatever the clock said: two creations in one tick must not share anything (sametick: the
+\* driver saw them less than 1 ms apart)
+StampKey(n) == IF n = 0 \/ UniqueStamp THEN ndb + 1
                ELSE IF \E d \in 1..ndb : dbStampNo[d] = n /\ dbSt[d] = "live"
                       THEN dbStamp[CHOOSE d \in 1..ndb : dbStampNo[d] = n /\ dbSt[d] = "live"] ELSE ndb + 1
 TWrite ==
